@@ -387,6 +387,7 @@ func (x *H1Client) Leave(reset bool) {
 // ---------- scripted HTTP/1 upstream ----------
 
 type H1Upstream struct {
+	Tainted         bool // sent deliberately malformed bytes: its view of "exchange completed" means nothing
 	S               *sim.Sim
 	H               *History
 	Host            string
@@ -415,7 +416,8 @@ func (u *H1Upstream) OnData(c *sim.Conn, b []byte) {
 		m := u.parser.Next(false)
 		if u.parser.Err != nil {
 			u.ParseErr = u.parser.Err
-			u.S.Logf("h1upstream %s c%d parse error %v", u.Host, c.ID, u.ParseErr)
+			u.S.Logf("h1upstream %s c%d parse error %v: closes the connection", u.Host, c.ID, u.ParseErr)
+			c.PeerClose()
 			return
 		}
 		if m == nil {
@@ -427,6 +429,9 @@ func (u *H1Upstream) OnData(c *sim.Conn, b []byte) {
 		if r == nil {
 			u.Unknown = append(u.Unknown, m.Raw)
 			u.S.Logf("h1upstream %s c%d got request with unknown token %q", u.Host, c.ID, tok)
+			if !u.Wedged {
+				c.Send(BuildH1(&H1Msg{Status: 200, Reason: "OK", Headers: []KV{{"X-Unknown", "1"}}, Body: []byte("unknown")}))
+			}
 			continue
 		}
 		att := len(r.Upstream)
@@ -495,6 +500,22 @@ func (u *H1Upstream) react(c *sim.Conn, r *ReqRec, up *UpRec) {
 		})
 	case "reply_close":
 		u.S.After(a.Delay, lab, func() { u.send(c, up, mk()); finish(); c.PeerClose() })
+	case "garbage_reply", "corrupt_reply":
+		u.S.Fault("up_" + a.Kind)
+		u.S.After(a.Delay, lab, func() {
+			if u.Wedged || c.PeerDone() {
+				return
+			}
+			b := a.Junk
+			if a.Kind == "corrupt_reply" {
+				var how string
+				b, how = Corrupt("http1", mk(), u.S.Ch)
+				u.S.Logf("h1upstream %s c%d sends corrupted reply (%s)", u.Host, c.ID, how)
+			}
+			c.Send(b)
+			u.Tainted = true
+			u.Wedged = true
+		})
 	default:
 		panic("unknown action " + a.Kind)
 	}
